@@ -58,7 +58,7 @@ def gen_consts(rng, names, n):
         if rng.random() < 0.12:
             # (all-lower-case `source` / `entries` / `device` .. would be captured as constant patterns by the template's
             # own bindings - known finding KF-C01-const-captures-binding - and are exercised by C01 only)
-            special = [w for w in ("Source", "Push_Constant_Stages", "Entry_Main", "entry_Main", "Entry_Vs_Main", "push_constant_stages",
+            special = [w for w in ("LEVEL_2_", "BIAS0_", "K9__", "Source", "Push_Constant_Stages", "Entry_Main", "entry_Main", "Entry_Vs_Main", "push_constant_stages",
                                    "layout_descriptor0", "vertex_attributes", "Wg") if w.lower() not in names.used]
             if special:
                 name = rng.choice(special)
@@ -366,6 +366,11 @@ def gen_entries(rng, names, ov_names):
         truth.append({"name": name, "stage": "compute", "wg": wg})
     if any("WG" in e for e in ents):
         decl.append("const WG: u32 = 4u;")
+    if rng.random() < 0.5:
+        # entry points declared in any order (a fragment / compute entry before the first vertex entry ...)
+        pairs = list(zip(ents, truth))
+        rng.shuffle(pairs)
+        ents, truth = [p_[0] for p_ in pairs], [p_[1] for p_ in pairs]
     return decl, ents, truth
 
 
